@@ -388,6 +388,7 @@ pub fn run(ctx: &Ctx) -> Report {
      each file through show / show --json / --terminal show / link / verify (3 forms) / dump / stats / announce, by path and on stdin; argument strings for byte size, host:port, sort spec, glob, URL and magnet; \
      non-trivial = any file other than a plainly accepted one, any argument case; distinct by content hash",
   );
+  report.correspondences.push("C08.utf8: Imdlv.Peer.isUtf8 (RFC 3629 validator of the model) = std::str::from_utf8 acceptance".into());
   report.correspondences.push("C08.load: acceptance by `imdl torrent show --json` = Imdlv.Load.loadTorrent (typed reader + generic decoder + validations), on the domain the model claims".into());
   let mut rng = Rng::new(ctx.seed).fork(0xC08);
   let mut inputs: Vec<(Vec<u8>, &'static str)> = Vec::new();
@@ -449,6 +450,32 @@ pub fn run(ctx: &Ctx) -> Report {
     let model_ok = ans.starts_with("ok ");
     if model_ok != o.show_json_ok {
       report.fail("model", "C08.load", case, format!("`show --json` accepted={}, model `{}`", o.show_json_ok, &ans[..ans.len().min(60)]));
+    }
+  }
+  // ---- glue: the model's UTF-8 validator (Imdlv.Peer.isUtf8) against the standard library's
+  if ctx.replay.is_none() {
+    let seeds: [&[u8]; 10] = [b"plain", "é".as_bytes(), "日本".as_bytes(), "🎉".as_bytes(), "\u{7ff}\u{800}\u{ffff}\u{10000}\u{10ffff}".as_bytes(), b"\xed\x9f\xbf", b"\xee\x80\x80", b"\xf4\x8f\xbf\xbf", b"\xc2\x80", b"\xe0\xa0\x80"];
+    for i in 0..ctx.n(1500, 60_000) {
+      let mut b: Vec<u8> = if i % 3 == 0 { rng.bytes_upto(6) } else { rng.pick(&seeds).to_vec() };
+      for _ in 0..rng.below(3) {
+        if b.is_empty() {
+          break;
+        }
+        let at = rng.below(b.len() as u64) as usize;
+        match rng.below(4) {
+          0 => b[at] = *rng.pick(&[0x7fu8, 0x80, 0xbf, 0xc0, 0xc1, 0xc2, 0xdf, 0xe0, 0xed, 0xef, 0xf0, 0xf4, 0xf5, 0xff, 0x9f, 0xa0, 0x8f, 0x90]),
+          1 => { b.remove(at); }
+          2 => b.insert(at, *rng.pick(&[0x80u8, 0xbf, 0xe0, 0xf0, 0x41])),
+          _ => b[at] ^= 1 << rng.below(8),
+        }
+      }
+      let want = std::str::from_utf8(&b).is_ok();
+      let ans = model.ask(&format!("util utf8 {}", hex(&b)).trim_end().to_string());
+      report.case(Some(fnv(&b) ^ 0x0f8));
+      report.hit(if want { "utf8:valid" } else { "utf8:invalid" });
+      if ans != format!("ok {}", want as u8) {
+        report.fail("model", "C08.utf8", json!({"bytes_hex": hex(&b)}), format!("std::str::from_utf8 accepts={want}, model `{ans}`"));
+      }
     }
   }
   report.model_requests = model.requests;
